@@ -5,7 +5,7 @@ import numpy as np
 import verde as vd
 from hypothesis import strategies as st
 
-from vlib import blocks, gen
+from vlib import blocks, build, gen
 from vlib.oracles import line_models, match_line
 from vlib.runner import Sub, Violation
 
@@ -75,13 +75,15 @@ def rolling_cases(draw):
         case["given_region"] = draw(st.booleans())
     case["shape_in"] = draw(st.sampled_from(blocks.shape_options(len(case["e"]))))
     case["extra"] = draw(st.booleans())
+    case["orders"] = draw(build.orders_strategy())
     return case
 
 
 def check_rolling(case, ctx):
     shp = case["shape_in"]
-    e = np.array(case["e"]).reshape(shp)
-    n = np.array(case["n"]).reshape(shp)
+    lay = build.Lay(case.get("orders"))
+    e = lay(case["e"], shp)
+    n = lay(case["n"], shp)
     coords = (e, n) + ((np.arange(e.size, dtype="float64").reshape(shp),) if case["extra"] else ())
     size = case["size"]
     kw = {}
@@ -105,6 +107,11 @@ def check_rolling(case, ctx):
         raise Violation("window size %r larger than the region %r was accepted" % (size, region))
     import warnings
 
+    if "spacing" in case:
+        # harness guard: an inferred region can be much larger than the one the spacing was drawn for
+        we_, wn_ = (region[0] + size / 2, region[1] - size / 2), (region[2] + size / 2, region[3] - size / 2)
+        if (we_[1] - we_[0]) / case["spacing"][1] > 1e3 or (wn_[1] - wn_[0]) / case["spacing"][0] > 1e3:
+            ctx.skip("too_many_windows_for_the_oracle")
     with warnings.catch_warnings():
         warnings.simplefilter("ignore")
         centers, indices = vd.rolling_window(coords, size, **kw)
@@ -206,13 +213,14 @@ def expanding_cases(draw):
         center = [draw(gen.finite(-100, 100)), draw(gen.finite(-100, 100))]
         sizes = draw(st.lists(gen.finite(0.0, 300.0), min_size=1, max_size=6))
     return dict(mode="lattice" if lattice else "free", e=es, n=ns, center=center, sizes=sizes,
-                shape_in=draw(st.sampled_from(blocks.shape_options(npts))), extra=draw(st.booleans()))
+                shape_in=draw(st.sampled_from(blocks.shape_options(npts))), extra=draw(st.booleans()), orders=draw(build.orders_strategy()))
 
 
 def check_expanding(case, ctx):
     shp = case["shape_in"]
-    e = np.array(case["e"]).reshape(shp)
-    n = np.array(case["n"]).reshape(shp)
+    lay = build.Lay(case.get("orders"))
+    e = lay(case["e"], shp)
+    n = lay(case["n"], shp)
     coords = (e, n) + ((np.zeros(shp),) if case["extra"] else ())
     sizes = case["sizes"]
     res = vd.expanding_window(coords, tuple(case["center"]), sizes)
